@@ -31,3 +31,9 @@ package control
 //@ props C01
 //@ ensures result == (ios_scaled(current, 10000000, true) >= ios_scaled(desired, 10000000, true))
 //@ pure
+
+//@ func ShouldWaitResume
+//@ props C11
+//@ requires release != nil
+//@ ensures result == (release.Spec.ReleasePlan.FinalizingPolicy == v1beta1.WaitResumeFinalizingPolicyType)
+//@ pure
